@@ -78,6 +78,8 @@ impl PoolManager {
                 .active_workers
                 .fetch_or(1 << first_idle_worker, Ordering::Relaxed);
             if active_workers & (1 << first_idle_worker) == 0 {
+                #[cfg(feature = "verif-hooks")]
+                crate::verif_hooks::probe(crate::verif_hooks::site::POOL_ACTIVATE_RELAXED_FOUND_IDLE, first_idle_worker);
                 self.begin_worker_search();
                 self.worker_unparkers[first_idle_worker].unpark();
                 return;
@@ -108,6 +110,8 @@ impl PoolManager {
                     .active_workers
                     .fetch_or(1 << first_idle_worker, Ordering::Relaxed);
                 if active_workers & (1 << first_idle_worker) == 0 {
+                    #[cfg(feature = "verif-hooks")]
+                    crate::verif_hooks::probe(crate::verif_hooks::site::POOL_ACTIVATE_FOUND_IDLE, first_idle_worker);
                     self.begin_worker_search();
                     self.worker_unparkers[first_idle_worker].unpark();
                     return;
